@@ -485,6 +485,7 @@ def matrix_basis(ctx):
 # --------------------------------------------------------------------------- expr_as_matrix
 @rule("C18.expr-pairing", props=["C18"], min_instances=2, mutants=[
     ("matrix filled transposed", ("matrixreps", "            A[i, j] = cv.coeff(xj)", "            A[j, i] = cv.coeff(xj)")),
+    ("coefficients are read from the expression as it comes, without expanding it", ("matrixreps", "        cv = sympy.collect(yi.expand(), x.values())", "        cv = sympy.collect(yi, x.values())")),
     ("coefficients collected from the wrong row", ("matrixreps", "        cv = sympy.collect(yi.expand(), x.values())", "        cv = sympy.collect(list(y.values())[0].expand(), x.values())")),
 ])
 def expr_pairing(ctx):
@@ -493,9 +494,9 @@ def expr_pairing(ctx):
     q = "matrixreps.expr_as_matrix"
     fn = ctx.func(q)
 
-    def expr_tok(name):
-        o = Obj("expr", {"fmt": name, "name": name})
-        o.methods["expand"] = lambda: o
+    def expr_tok(name, expanded=False):
+        o = Obj("expr", {"fmt": name, "name": name, "expanded": expanded})
+        o.methods["expand"] = lambda *a, **k: expr_tok(name, True)
         return o
     for label, res_like_keys in (("full result", None), ("res_like", (4, 1))):
         c = f"{q}#{label}"
@@ -510,9 +511,16 @@ def expr_pairing(ctx):
             shape["shape"] = a[0] if len(a) == 1 else a
             return Obj("matrix", {"fmt": "A"}, {"setitem": lambda idx, v: stores.__setitem__(idx, v)})
 
-        def collect(e, syms):
+        unexpanded = []
+
+        def collect(e, syms, *a, **k):
             o = Obj("collected", {"of": e})
-            o.methods["coeff"] = lambda s: Obj("coeff", {"fmt": f"coeff({e},{s})"})
+
+            def coeff(s_, *a_, **k_):
+                if not (isinstance(e, Obj) and e.attrs.get("expanded")):
+                    unexpanded.append(str(e))
+                return Obj("coeff", {"fmt": f"coeff({e},{s_})"})
+            o.methods["coeff"] = coeff
             return o
 
         def multivector(mapping=None, **kw):
@@ -523,8 +531,9 @@ def expr_pairing(ctx):
         it = make_interp(repo)
         it.algebra = alg
         it.standins["numpy"] = Obj("module:numpy", {"zeros": PyFunc(zeros, "np.zeros", True)})
+        expand_fn = PyFunc(lambda e, *a, **k: e.methods["expand"]() if isinstance(e, Obj) and "expand" in e.methods else e, "sympy.expand", True)
         it.standins["sympy"] = Obj("module:sympy", {"zeros": PyFunc(zeros, "sympy.zeros", True), "collect": PyFunc(collect, "collect", True),
-                                                    "sympify": PyFunc(lambda v: v, "sympify", True)})
+                                                    "sympify": PyFunc(lambda v: v, "sympify", True), "expand": expand_fn, "expand_mul": expand_fn})
         expr = Obj("function", call=lambda *a: y_full)
         kwargs = {}
         if res_like_keys:
@@ -548,6 +557,10 @@ def expr_pairing(ctx):
         if not (isinstance(yres, Obj) and tuple(yres.attrs.get("_keys", ())) == tuple(ykeys)
                 and [str(v) for v in yres.attrs.get("_values", [])] == [ynames[k] for k in ykeys]):
             problems.append("the returned y is not the (res_like re-keyed) result of the expression")
+        if unexpanded:
+            problems.append(f"the coefficient of x_j is read with coeff() from {unexpanded[0]} as the operators returned it, not from its expansion: "
+                            f"coeff() finds nothing inside a product, and the automatic simplification (sympy.simplify by default) returns factored "
+                            f"coefficients such as n1*(n1*x1 + n2*x2) for a projection - those rows of A silently become 0")
         if problems:
             ctx.violation(c, "; ".join(problems), fn)
         else:
